@@ -241,7 +241,9 @@ def history_stage(chk, out):
                 return not (p["p"] == "type" and p["t"] == name)
 
             def is_field_visible(self, typename, fieldname):
-                return not (p["p"] == "field" and p["t"] == typename and opsreplay.words_of(fieldname)[0] == list(p["f"]))
+                w = opsreplay.words_of(fieldname)[0]
+                return not ((p["p"] == "field" and p["t"] == typename and w == list(p["f"]))
+                            or (p["p"] == "fields" and p["t"] == typename and w[0] == p["f"][0]))
 
             def is_input_field_visible(self, typename, fieldname):
                 return not (p["p"] == "input" and p["t"] == typename and opsreplay.words_of(fieldname)[0] == list(p["f"]))
